@@ -1,4 +1,4 @@
-import Glom.Model.C11
+import Glom.Model.C11Re
 import Glom.Spec.C01
 /-
   C11 — reference semantics ("the corresponding plain Python nested assignment"),
@@ -112,6 +112,67 @@ def argsScalar : List Step → Bool
   | (_, .ref _) :: _ => false
   | _ :: r => argsScalar r
 
+/-! ### observation up to the numbering of the cells created during the call
+
+  Addresses of pre-existing cells are fixed by the case; the cells a call creates (factory
+  objects, rebuilt literal containers) have no identity an observer could name other than *how
+  they are reached*: two heaps are the same observation when they agree after renumbering the new
+  cells in first-visit order (scan the pre-existing cells in address order, children left to right,
+  depth first) and dropping the new cells nothing refers to (garbage). -/
+
+/-- every value a cell holds, in order (dict: key, value, key, value …) -/
+def cellVals : Obj → List Val
+  | .list _ xs | .tuple _ xs | .set _ xs => xs
+  | .dict _ es => es.flatMap (fun e => [e.1, e.2])
+  | .inst _ as => as.map (·.2)
+
+/-- first-visit order of the new cells (addresses `≥ n`) reachable from `v`, appended to `ord` -/
+def visitNew (h : Heap) (n : Nat) : Nat → List Nat → Val → List Nat
+  | 0, ord, _ => ord
+  | fuel + 1, ord, .ref a =>
+    if a < n || ord.contains a then ord
+    else match h[a]? with
+      | none => ord ++ [a]
+      | some o => (cellVals o).foldl (fun acc x => visitNew h n fuel acc x) (ord ++ [a])
+  | _ + 1, ord, _ => ord
+
+/-- the new cells in first-visit order, scanning the first `n` cells in address order, then `extra` -/
+def newOrder (n : Nat) (h : Heap) (extra : List Val) : List Nat :=
+  ((h.take n).flatMap cellVals ++ extra).foldl (fun acc x => visitNew h n (h.length + 1) acc x) []
+
+def renameVal (n : Nat) (ord : List Nat) : Val → Val
+  | .ref a => if a < n then .ref a else
+      (match ord.idxOf? a with
+       | some i => .ref (n + i)
+       | none => .ref a)
+  | v => v
+
+def renameObj (n : Nat) (ord : List Nat) : Obj → Obj
+  | .list c xs => .list c (xs.map (renameVal n ord))
+  | .tuple c xs => .tuple c (xs.map (renameVal n ord))
+  | .set c xs => .set c (xs.map (renameVal n ord))
+  | .dict c es => .dict c (es.map (fun e => (renameVal n ord e.1, renameVal n ord e.2)))
+  | .inst c as => .inst c (as.map (fun e => (e.1, renameVal n ord e.2)))
+
+/-- **canonical form** of a heap whose first `n` cells are the pre-existing ones -/
+def canon (n : Nat) (h : Heap) : Heap :=
+  let ord := newOrder n h []
+  (h.take n).map (renameObj n ord) ++ ord.filterMap (fun a => (h[a]?).map (renameObj n ord))
+
+/-- cells whose content the observer could not see (the scope frame, when no later step of a chain
+    looked into it) are taken as they were before the call — in the observation and in the prescription -/
+def maskCells (h : Heap) (unobs : List Nat) (hp : Heap) : Heap :=
+  unobs.foldl (fun acc a => match h[a]? with | some o => acc.set a o | none => acc) hp
+
+mutual
+def renameNest (n : Nat) (ord : List Nat) : Nest → Nest
+  | .leaf v => .leaf (renameVal n ord v)
+  | .node xs => .node (renameNestL n ord xs)
+def renameNestL (n : Nat) (ord : List Nat) : List Nest → List Nest
+  | [] => []
+  | x :: xs => renameNest n ord x :: renameNestL n ord xs
+end
+
 end Glom.Mut
 
 namespace Glom.C11
@@ -154,7 +215,10 @@ def freshObj (kind : String) : Option Obj :=
 /-- create the absent tail `seg :: rest` (the last step of which receives `v`) on a
     fresh object: one factory call per absent segment, outermost first; a wildcard
     over a freshly created (empty) object has no matches, so nothing below it is
-    created or assigned.  Result: heap, the fresh object, hidden flag, number of calls. -/
+    created or assigned.  A factory that returns a non-container (`freshScalar`: `0`, `''`,
+    `None`) gives something nothing can be assigned into: the tail cannot be created — unless its
+    first step is a wildcard, which has no matches on a scalar either, so the scalar itself is what
+    gets attached.  Result: heap, the fresh object, hidden flag, number of calls. -/
 def buildTail (env : MEnv) (kind : String) (v : Val) : List Step → Heap → Option (Heap × Val × Bool × Nat)
   | [], _ => none
   | [s], h =>
@@ -167,7 +231,10 @@ def buildTail (env : MEnv) (kind : String) (v : Val) : List Step → Heap → Op
       | _ => none
   | s :: s' :: rest, h =>
     match freshObj kind with
-    | none => none
+    | none =>
+      (match freshScalar kind with
+       | some c => if s.1 == "x" then some (h, c, false, 1) else none
+       | none => none)
     | some o =>
       let c := Val.ref h.length
       let h0 := h ++ [o]
@@ -292,17 +359,108 @@ def observe (env : MEnv) (out : St × Except MErr Val) : Obs :=
     heap := out.1.heap, calls := out.1.calls, hidden := out.1.hidden }
 
 /-- **The property, evaluated on an observation** (of the model, or of the
-    implementation): success ⇒ the same object is returned, the heap is exactly
+    implementation) against a prescription: success ⇒ the same object is returned, the heap is exactly
     the plain-Python result (every other cell untouched; the absent segments
-    created by exactly one factory call each); failure ⇒ an error, and for a
+    created by exactly one factory call each; cells created during the call compared up to their
+    numbering, `canon`); failure ⇒ an error, and for a
     wildcard-free path every pre-existing object exactly as before. -/
+def checkRef (h : Heap) (target : Val) (ref : RefRes) (obs : Obs) (unobs : List Nat := []) : Bool :=
+  match ref with
+  | .ok h' hid calls =>
+    obs.res == .ok target &&
+      canon h.length (maskCells h unobs obs.heap) == canon h.length (maskCells h unobs h') &&
+      obs.calls == calls && obs.hidden == hid
+  | .fail atomic =>
+    obs.res.isErr && (!atomic || (maskCells h unobs obs.heap).take h.length == h)
+  | .unsupported => false
+
 def checkC11 (env : MEnv) (h : Heap) (target root : Val) (orig : List Step) (vs : ValSpec)
     (missing : Missing) (obs : Obs) : Bool :=
-  match refAssign env h target root orig vs missing with
-  | .ok h' hid calls =>
-    obs.res == .ok target && obs.heap == h' && obs.calls == calls && obs.hidden == hid
-  | .fail atomic =>
-    obs.res.isErr && (!atomic || obs.heap.take h.length == h)
+  checkRef h target (refAssign env h target root orig vs missing) obs
+
+/-- the prescription for a literal in `val` position: the value is what arg mode makes of the literal
+    (scalars, objects and subclass instances themselves; an exact list / dict / tuple / set rebuilt,
+    one new list / dict per distinct original, T leaves evaluated against the target), then the
+    plain-Python assignment of that value.  Nothing of the literal itself is changed. -/
+def refAssignU (env : MEnv) (fuel : Nat) (h : Heap) (target root : Val) (orig : List Step) (uv : UVal)
+    (missing : Missing) : RefRes :=
+  match uv with
+  | .path s => refAssign env h target root orig (.path s) missing
+  | .lit v =>
+    match orig.getLast? with
+    | none => .fail true
+    | some (op, _) =>
+      if !finalOk op then .fail true else
+      match argEval env target fuel { heap := h } [] v with
+      | (_, _, .error .unmodelled) => .unsupported
+      | (_, _, .error _) => .fail true
+      | (st1, _, .ok v') => refAssign env st1.heap target root orig (.val v') missing
+
+def checkC11U (env : MEnv) (fuel : Nat) (h : Heap) (target root : Val) (orig : List Step) (uv : UVal)
+    (missing : Missing) (obs : Obs) (unobs : List Nat := []) : Bool :=
+  checkRef h target (refAssignU env fuel h target root orig uv missing) obs unobs
+
+/-! ### one spec object, two overlapping evaluations -/
+
+/-- the second evaluation: the factory re-enters `glom(target2, spec)` at its `at_`-th call, or
+    (`threads`) two threads evaluate the spec on `target` and `target2` and meet inside the factory -/
+structure Re where
+  at_ : Nat
+  target2 : Val
+  threads : Bool
+  deriving Repr
+
+/-- the addresses reachable from a value -/
+def reach (h : Heap) (v : Val) : List Nat := visitNew h 0 (h.length + 1) [] v
+
+/-- the two records (and the literal value, if any) share nothing with the second record -/
+def recordsDisjoint (h : Heap) (target target2 : Val) (uv : UVal) : Bool :=
+  let r2 := reach h target2
+  let r1 := reach h target ++ (match uv with | .lit v => reach h v | .path _ => [])
+  r1.all (fun a => !r2.contains a)
+
+/-- what two overlapping evaluations of one spec on two records that share nothing must amount to -/
+inductive Ref2 where
+  | ok (h' : Heap) (calls : Option Nat)   -- this heap (up to numbering of new cells); this many factory calls, if prescribed
+  | fail (hs : List Heap)                 -- an error; the pre-existing cells are those of one of these heaps
+  | unsupported
+  deriving Repr
+
+/-- **The prescription for overlapping evaluations**: a spec object is an immutable term, so each
+    evaluation does what it would do alone — on records that share nothing, the heap is the one the
+    two plain-Python assignments leave, in either order: each record holds ITS OWN value. -/
+def refAssignRe (env : MEnv) (fuel : Nat) (h : Heap) (target : Val) (orig : List Step) (uv : UVal)
+    (kind : String) (re : Re) : Ref2 :=
+  let miss := Missing.factory kind
+  if !recordsDisjoint h target re.target2 uv || hasStar orig then .unsupported else
+  match refAssignU env fuel h target target orig uv miss with
+  | .unsupported => .unsupported
+  | .ok hA hidA nA =>
+    if hidA then .unsupported
+    else if !re.threads && nA ≤ re.at_ then .ok hA (some nA)      -- the factory is never called `at_ + 1` times
+    else
+      match refAssignU env fuel h re.target2 re.target2 orig uv miss with
+      | .ok h1 hid1 n1 =>
+        if hid1 then .unsupported else
+        (match refAssignU env fuel h1 target target orig uv miss with
+         | .ok h2 _ n2 => .ok h2 (some (n1 + n2))
+         | _ => .unsupported)
+      | .fail true => .ok hA none     -- the other evaluation raised (atomically): its factory calls are not prescribed
+      | _ => .unsupported
+  | .fail true =>
+    (match refAssignU env fuel h re.target2 re.target2 orig uv miss with
+     | .ok h1 _ _ => .fail [h, h1]
+     | .fail true => .fail [h]
+     | _ => .unsupported)
+  | .fail false => .unsupported
+
+def checkC11Re (env : MEnv) (fuel : Nat) (h : Heap) (target : Val) (orig : List Step) (uv : UVal)
+    (kind : String) (re : Re) (obs : Obs) : Bool :=
+  match refAssignRe env fuel h target orig uv kind re with
+  | .ok h' calls =>
+    obs.res == .ok target && canon h.length obs.heap == canon h.length h' &&
+      (match calls with | some n => obs.calls == n | none => true) && !obs.hidden
+  | .fail hs => obs.res.isErr && hs.any (fun x => obs.heap.take h.length == x.take h.length)
   | .unsupported => false
 
 /-! ### reading the path back in a later step of the same chain -/
@@ -330,15 +488,18 @@ def observeRead (env : MEnv) : Option (Except MErr Nest) → ReadObs
     S-rooted path that includes the binding made in the scope frame —: the addressed objects in
     order (below `k` wildcards: `k` list levels), or a PathAccessError at the segment where the
     walk stops; after a failed assign the read never runs.  (Not evaluated when the assignment
-    stored a *hidden* attribute — on an instance of a container subclass with a `__dict__`.) -/
-def checkRead (env : MEnv) (h : Heap) (target root : Val) (orig : List Step) (vs : ValSpec)
-    (missing : Missing) (rd : List Step) (ro : ReadObs) : Bool :=
-  match refAssign env h target root orig vs missing with
+    stored a *hidden* attribute — on an instance of a container subclass with a `__dict__`.)
+    `obsHeap`: the observed heap the read values live in (cells created during the call are compared
+    up to their numbering). -/
+def checkReadRef (env : MEnv) (n : Nat) (root : Val) (ref : RefRes) (rd : List Step) (obsHeap : Heap)
+    (ro : ReadObs) : Bool :=
+  match ref with
   | .ok _ true _ => true     -- Python stored an attribute where the cell layout cannot show it
   | .ok h' false _ =>
     (match matchesOf env h' rd 0 root with
      | .ok ds => (match ro with
-        | .ok n => n.uniform (stars rd) && n.leaves == ds
+        | .ok nst => nst.uniform (stars rd) &&
+            nst.leaves.map (renameVal n (newOrder n obsHeap [])) == ds.map (renameVal n (newOrder n h' []))
         | _ => false)
      | .fail k e _ => (match ro with
         | .err o => o == obsErr env "PathAccessError" (some e.cls) (some k) none true
@@ -347,6 +508,14 @@ def checkRead (env : MEnv) (h : Heap) (target root : Val) (orig : List Step) (vs
      | .unsupported => true)
   | .fail _ => (match ro with | .notRun => true | _ => false)
   | .unsupported => true
+
+def checkRead (env : MEnv) (h : Heap) (target root : Val) (orig : List Step) (vs : ValSpec)
+    (missing : Missing) (rd : List Step) (obsHeap : Heap) (ro : ReadObs) : Bool :=
+  checkReadRef env h.length root (refAssign env h target root orig vs missing) rd obsHeap ro
+
+def checkReadU (env : MEnv) (fuel : Nat) (h : Heap) (target root : Val) (orig : List Step) (uv : UVal)
+    (missing : Missing) (rd : List Step) (obsHeap : Heap) (ro : ReadObs) : Bool :=
+  checkReadRef env h.length root (refAssignU env fuel h target root orig uv missing) rd obsHeap ro
 
 /-! ### well-formedness of the extracted facts -/
 
@@ -383,5 +552,19 @@ def covered (env : MEnv) (h : Heap) (target : Val) (sroot : Bool) (orig : List S
   let _ := target; let _ := sroot
   WF env && classesOK env && C01.wfSteps orig && valWf vs && !valUnsupported h vs &&
     missingOK env orig missing
+
+/-- every T-expression cell of the heap consists of item / attribute / plain-segment steps -/
+def tleafsWf (env : MEnv) (h : Heap) : Bool :=
+  h.all (fun o => match o with
+    | .inst c steps => !env.flag c "tleaf" || C01.wfSteps steps
+    | _ => true)
+
+/-- the hypotheses of the theorems about literals in `val` position, as one decidable test: as for
+    `covered`, plus: the recursion of `arg_val` on the literal ends within the fuel and no T leaf
+    of the literal contains a wildcard (`argEval` does not answer "unmodelled") -/
+def coveredLit (env : MEnv) (fuel : Nat) (h : Heap) (target : Val) (orig : List Step) (v : Val)
+    (missing : Missing) : Bool :=
+  WF env && classesOK env && C01.wfSteps orig && missingOK env orig missing &&
+    (argEval env target fuel { heap := h } [] v).2.2 != .error .unmodelled
 
 end Glom.C11
